@@ -259,7 +259,207 @@ def check_c10(pid, tier, seed, rep):
     return cov
 
 
-CHECKS = {"C09": check_c09, "C10": check_c10}
+GO_KEYWORDS = "break case chan const continue default defer else fallthrough for func go goto if import interface map package range return select struct switch type var".split()
+GO_PREDECLARED = ("any bool byte comparable complex64 complex128 error float32 float64 int int8 int16 int32 int64 rune string uint uint8 uint16 uint32 uint64 uintptr "
+                  "true false iota nil append cap clear close complex copy delete imag len make max min new panic print println real recover").split()
+
+
+def regen_table(which, outname):
+    gt = vlib.build_tool("gentables")
+    rc, out, err = vlib.run([gt, which, vlib.REPO], timeout=60)
+    if rc != 0:
+        raise vlib.BuildError("gentables %s failed: %s" % (which, err[-500:]))
+    path = os.path.join(vlib.COQ, outname)
+    old = open(path).read() if os.path.exists(path) else None
+    if old != out:
+        with open(path, "w") as f:
+            f.write(out)
+    return out
+
+
+def build_overlay_tool(name, src):
+    """go build -overlay: a main package that exists only in the overlay, inside /repo's module (no change to /repo)."""
+    import json as _j
+    d = os.path.join(vlib.scratch(), "ov-" + name)
+    os.makedirs(d, exist_ok=True)
+    ov = os.path.join(d, "overlay.json")
+    with open(ov, "w") as f:
+        _j.dump({"Replace": {os.path.join(vlib.REPO, "cmd", name, "main.go"): os.path.join(vlib.VERIF, "harness", "overlay", src)}}, f)
+    out = os.path.join(d, name)
+    rc, o, e = vlib.run(["go", "build", "-overlay", ov, "-o", out, "./cmd/" + name], cwd=vlib.REPO, env=vlib.goenv(), timeout=600)
+    if rc != 0:
+        raise vlib.BuildError("overlay tool %s does not build: %s" % (name, e[-1500:]))
+    return out
+
+
+def check_c12(pid, tier, seed, rep):
+    """Allocator: theorems over all histories (tables regenerated from const.go) + real VarPool vs model on adversarial histories."""
+    import random
+    table = regen_table("reserved", "Reserved_gen.v")
+    cov = prove(pid, rep)
+    rnd = random.Random(seed * 31 + 5)
+    drv = build_overlay_tool("verifvarpool", "varpool_main.go")
+    stems = ["foo", "fooBar", "err", "ctx", "eg", "ch", "zero", "num", "str", "val", "x", "errgroup", "context", "kessoku"]
+    sufs = ["", "", "0", "1", "00", "01", "Ch", "Ch0", "Ch1", "0Ch"]
+    tynames = ["Foo", "Foo0", "Foo1", "FooCh", "FooCh0", "FooBar", "HTTPServer", "Err", "Err0", "Err1", "Ctx", "Eg", "Ch", "Zero", "X", "DB", "Func", "Type", "Len", "Nil", "Int", "String0"]
+    reserved_sample = GO_KEYWORDS + GO_PREDECLARED
+    def rname():
+        r = rnd.random()
+        if r < 0.12:
+            return rnd.choice(reserved_sample) + rnd.choice(["", "", "0", "1"])
+        return rnd.choice(stems) + rnd.choice(sufs)
+    n = 150 if tier == "quick" else 3000
+    hs = []
+    for i in range(n):
+        pre = [rname() for _ in range(rnd.choice([0, 0, 1, 2, 4, 8]))]
+        reqs = []
+        for _ in range(rnd.randint(1, 30 if tier == "quick" else 60)):
+            k = rnd.random()
+            if k < 0.5:
+                reqs.append(["name", rname()])
+            elif k < 0.8:
+                reqs.append(["get", rnd.choice(tynames)])
+            else:
+                reqs.append(["chan", rnd.choice(tynames)])
+        hs.append(dict(pre=pre, reqs=reqs))
+    # corpus first: the history of the repaired defect
+    hs.insert(0, dict(pre=[], reqs=[["name", "foo"], ["name", "foo"], ["name", "foo0"]]))
+    hs.insert(1, dict(pre=["fooCh"], reqs=[["chan", "Foo"], ["chan", "Foo"], ["get", "FooCh0"], ["chan", "Foo"]]))
+    rc, out, err = vlib.run([drv], input=json.dumps(hs), timeout=300)
+    if rc != 0:
+        raise RuntimeError("varpool driver failed: " + err[-800:])
+    outs = json.loads(out)
+    def violates(h, o):
+        bad = []
+        if len(set(o)) != len(o):
+            dup = sorted({x for x in o if o.count(x) > 1})
+            bad.append("identifier(s) %s handed out twice" % dup)
+        for x in o:
+            if x in GO_KEYWORDS:
+                bad.append("keyword %s handed out" % x)
+            if x in GO_PREDECLARED:
+                bad.append("predeclared identifier %s handed out" % x)
+            if x in h["pre"]:
+                bad.append("pre-registered (package-level) name %s handed out" % x)
+        return bad
+    nviol = 0
+    for i, (h, o) in enumerate(zip(hs, outs)):
+        bad = violates(h, o)
+        if bad and nviol < 3:
+            # shrink: drop requests / pre names while the failure persists
+            cur = json.loads(json.dumps(h))
+            changed = True
+            while changed:
+                changed = False
+                for part in ("reqs", "pre"):
+                    j = 0
+                    while j < len(cur[part]):
+                        cand = dict(cur)
+                        cand[part] = cur[part][:j] + cur[part][j + 1:]
+                        rc2, out2, _ = vlib.run([drv], input=json.dumps([cand]), timeout=60)
+                        if rc2 == 0 and violates(cand, json.loads(out2)[0]):
+                            cur = cand
+                            changed = True
+                        else:
+                            j += 1
+            rc2, out2, _ = vlib.run([drv], input=json.dumps([cur]), timeout=60)
+            o2 = json.loads(out2)[0]
+            nviol += 1
+            rep.violation("history-%d" % i, dict(history=cur, outputs=o2, problems=violates(cur, o2), original_history=h,
+                                                how="feed the history to the real VarPool (harness/overlay/varpool_main.go built with go build -overlay)"),
+                          "request history %s yields %s: %s" % (cur["reqs"][:6], o2[:6], violates(cur, o2)[0]))
+    # model vs implementation inside Coq
+    def cs(x):
+        return '"' + x.replace('"', '""') + '"'
+    def creq(r):
+        return {"name": "RName", "get": "RGet", "chan": "RChan"}[r[0]] + " " + cs(r[1])
+    mism = []
+    coq_ok = True
+    shards = [list(range(i, min(i + 100, len(hs)))) for i in range(0, len(hs), 100)]
+    from concurrent.futures import ThreadPoolExecutor
+    def one(ix):
+        path = os.path.join(vlib.scratch(), "cases_vp_%d.v" % ix)
+        with open(path, "w") as f:
+            f.write("From Coq Require Import String List. Import ListNotations. Open Scope string_scope.\nRequire Import VarPool VarPoolRun Reserved_gen.\n")
+            f.write("Definition cases : list (nat * (list string * list req * list string)) := [\n" + ";\n".join(
+                "(%d, ([%s], [%s], [%s]))" % (i, "; ".join(cs(x) for x in hs[i]["pre"]), "; ".join(creq(r) for r in hs[i]["reqs"]), "; ".join(cs(x) for x in outs[i]))
+                for i in shards[ix]) + "].\n")
+            f.write("Definition M := Eval vm_compute in vp_mismatches (code_predeclared ++ code_keywords) cases.\nPrint M.\n")
+        return vlib.coqc_file(path, timeout=900)
+    with ThreadPoolExecutor(max_workers=8) as ex:
+        for rc3, o3 in ex.map(one, range(len(shards))):
+            m = re.search(r"M\s*=\s*\[(.*?)\]\s*:\s*list nat", o3, re.S)
+            if rc3 != 0 or not m:
+                coq_ok = False
+                rep.violation("corr-coq", dict(log=o3[-2000:]), "allocator correspondence cases do not evaluate in Coq", True)
+                break
+            mism += [int(x) for x in re.split(r"[;\s]+", m.group(1).strip()) if x]
+    if mism and not nviol:
+        i = mism[0]
+        rep.violation("corr-%d" % i, dict(correspondence="coq/VarPoolRun.v: serve differs from the real VarPool", history=hs[i], implementation=outs[i],
+                                         theorem="Properties/C12.v: C12_fresh is about a model that no longer matches var_pool.go", disagreeing=len(mism)),
+                      "allocator model and implementation differ on %d histories, e.g. %s -> %s" % (len(mism), hs[i]["reqs"][:5], outs[i][:5]), True)
+    lens = [len(h["reqs"]) for h in hs]
+    cov.update(programs=len(hs), disagreements_checked=len(hs), correspondence_disagreements=len(mism), trusted_base=TRUSTED + ["translator gentables (go/ast) for the reserved-word lists"],
+               input_distribution=dict(histories=len(hs), requests=sum(lens), max_len=max(lens), with_pre=sum(1 for h in hs if h["pre"]),
+                                       kinds={k: sum(1 for h in hs for r in h["reqs"] if r[0] == k) for k in ("name", "get", "chan")},
+                                       suffixed_outputs=sum(1 for o in outs for x in o if x[-1:].isdigit())),
+               samples=[dict(history=hs[i], outputs=outs[i]) for i in (0, 1, 2)], reserved_table_lines=table.count("\n"))
+    return cov
+
+
+def check_c15(pid, tier, seed, rep):
+    """Installer atomicity: theorems over all crash points / single faults + strace fault and kill injection on the real CLI."""
+    import stage_fs
+    cov = prove(pid, rep)
+    tree, recs = stage_fs.c15_runs(tier)
+    recs += stage_fs.natural_faults(tier)
+    hits = [r for r in recs if r["hit"]]
+    points = {}
+    nviol = 0
+    cases = []
+    for r in hits:
+        key = "%s/file%d/%s" % (r["mode"], r["hit"]["file_index"], r["hit"]["step"])
+        points[key] = points.get(key, 0) + 1
+        probs = stage_fs.c15_oracle(tree, r)
+        if probs and nviol < 4:
+            nviol += 1
+            rep.violation("run-%s" % r["k"], dict(prior_state=r["prior"], mode=r["mode"], injection="%s when=%s" % (r["syscall"], r["when"]), point=r["hit"],
+                                                  exit=r["rc"], stderr=r["stderr"], problems=probs, before=r["before"], after=r["after"],
+                                                  how="strace -f -e inject=%s:%s:when=%s kessoku llm-setup claude-code --path <dir prepared as prior_state>" % (
+                                                      r["syscall"], "error=EIO" if r["mode"] == "error" else "signal=KILL", r["when"])),
+                          "%s of %s (file %d) on a %s destination: %s" % ("failing" if r["mode"] == "error" else "death at", r["hit"]["step"], r["hit"]["file_index"], r["prior"], probs[0][:250]))
+        c = stage_fs.c15_coq_case(tree, r, len(cases) + 1) if not r.get("natural") else None
+        if c:
+            cases.append((c, r))
+    mism = []
+    if cases:
+        path = os.path.join(vlib.scratch(), "cases_fs.v")
+        with open(path, "w") as f:
+            f.write("From Coq Require Import List Arith. Import ListNotations.\nRequire Import Install.\n")
+            f.write("Definition cases : list (nat * (fs * list (path * option (content * mode)))) := [\n" + ";\n".join(c for c, _ in cases) + "].\n")
+            f.write("Definition M := Eval vm_compute in fs_mismatches cases.\nPrint M.\n")
+        rc, out = vlib.coqc_file(path, timeout=600)
+        m = re.search(r"M\s*=\s*\[(.*?)\]\s*:\s*list nat", out, re.S)
+        if rc != 0 or not m:
+            rep.violation("corr-coq", dict(log=out[-2000:]), "installer correspondence cases do not evaluate in Coq", True)
+        else:
+            mism = [int(x) for x in re.split(r"[;\s]+", m.group(1).strip()) if x]
+    if mism and not nviol:
+        c, r = cases[mism[0] - 1]
+        rep.violation("corr-%s" % r["k"], dict(correspondence="coq/Install.v (fail/crash) predicts a different file system than the real installer produced",
+                                              case=c, run=dict(prior=r["prior"], mode=r["mode"], point=r["hit"], after=r["after"]), disagreeing=len(mism)),
+                      "installer model and implementation differ at %d injection point(s), e.g. %s of %s file %d" % (len(mism), r["mode"], r["hit"]["step"], r["hit"]["file_index"]), True)
+    need = {"%s/file%d/%s" % (m, i, sc) for m in ("error", "kill") for i in range(len(tree)) for sc in ("write", "fsync", "fchmodat", "renameat")}
+    missing = sorted(need - set(points))
+    cov.update(evaluations=len(recs), programs=len(hits), disagreements_checked=len(cases), correspondence_disagreements=len(mism),
+               injection_points_hit=points, injection_points_missing=missing, files=len(tree), trusted_base=TRUSTED + ["strace syscall fault/kill injection (ptrace)"],
+               samples=[dict(prior=r["prior"], mode=r["mode"], point=r["hit"]["line"], exit=r["rc"]) for r in hits[:3]],
+               input_distribution=dict(runs=len(recs), hits=len(hits), priors=sorted({r["prior"] for r in recs}), natural_faults=sum(1 for r in recs if r.get("natural"))))
+    return cov
+
+
+CHECKS = {"C09": check_c09, "C10": check_c10, "C12": check_c12, "C15": check_c15}
 for _p in ("C01", "C02", "C03", "C05", "C06", "C07", "C08"):
     CHECKS[_p] = check_layer_ab
 
